@@ -70,8 +70,9 @@ const (
 
 // FetchRun controls one execution of a loader.
 type FetchRun struct {
-	mu   sync.Mutex
-	cond *sync.Cond
+	muted bool
+	mu    sync.Mutex
+	cond  *sync.Cond
 
 	IDOf  func(cid.Cid) int // CID -> model id (0 = not an entry of the instance: never gated)
 	CidOf func(int) cid.Cid
@@ -132,9 +133,21 @@ func (r *FetchRun) snapshot(ev *entry.VerifFetchEvent, tipAdj int) *State {
 	return st
 }
 
+// Mute makes the hook ignore events (and never park anybody) until it is switched back.
+func (r *FetchRun) Mute(on bool) {
+	r.mu.Lock()
+	r.muted = on
+	r.mu.Unlock()
+}
+
 // Hook is installed as entry.VerifFetchHook for the duration of the run.
 func (r *FetchRun) Hook(ev *entry.VerifFetchEvent) {
 	r.mu.Lock()
+	if r.muted {
+		// a load that is not part of the schedule (the caller's earlier use of its options value)
+		r.mu.Unlock()
+		return
+	}
 	r.Events++
 	switch ev.Kind {
 	case "acquire":
